@@ -523,6 +523,12 @@ def aimed(node, v, rng):
         if form == "contains" and len(els) >= 2 and len(v) >= len(els):
             # split the window: insert an odd value inside the first conforming window
             yield v[:1] + [OddValue()] + v[1:], "split_window"
+        if form == "contains" and len(els) >= 2 and v:
+            # a partial copy of the beginning in front of the list: the real window now starts inside a run that a
+            # window search has already partly matched (skip-ahead / shared-buffer searches step over it)
+            for i in (1, 2, 3):
+                if len(v) >= i:
+                    yield v[:i] + v, "self_overlap"
     elif k == "uuid4" and isinstance(v, _uuid.UUID):
         for ver in (1, 3, 5):
             yield _uuid.UUID(int=v.int, version=ver), "uuid_version"
